@@ -52,6 +52,10 @@ class Solver:
           write: Indicates whether the model should be written to file.
         '''
 
+        # The timings of a re-solve start at the re-solve.
+        if hasattr(self.model, 'time_after_solve'):
+            self.model.time_start = datetime.datetime.now()
+
         # Brute force method.
         if self.options_parser.solver_options[Solver_options.BRUTEFORCE]:
             self.solver = Brute_force_solver(
